@@ -3,7 +3,7 @@ from .common import *
 
 RULE = ("sign with callback outcome {accept, reject} x key states (first, middle, radix boundaries, last, wiped, beyond) x failing preconditions "
         "(wrong length, bad parameter byte) x {no aux, fresh aux, filled aux, corrupted aux}; oracle on the library's answers: ok => exactly one "
-        "callback with the complete successor key and accept; err => no callback, or one rejected callback; never more than one; keys of 35 and 40 bits total height (7 and 8 levels of H5) at their boundary and last states")
+        "callback with the complete successor key and accept; err => no callback, or one rejected callback; never more than one; keys of 35 and 40 bits total height (7 and 8 levels of H5) at their boundary and last states; the protocol under the C14 configurations with keys at the largest permitted parameters of every level")
 ASSUMPTIONS = ["the order of effects inside one call is observed through the callback trace only"]
 
 
@@ -97,3 +97,55 @@ def run(ctx):
                 ctx.fail("signing failed for a usable key and an accepting callback", [c.line], a[:300], "ok")
             if cnt is not None and cb == "reject" and len(calls) != 1:
                 ctx.fail("rejecting callback was not consulted exactly once", [c.line], a[:300], "err cb=<one key>")
+    run_configs(ctx)
+
+
+def protocol_oracle(ctx, c, a, k, cnt, cb, where=""):
+    if a.startswith("panic"):
+        f = fields(a)
+        if f.get("cb", "none") != "none":
+            ctx.fail("the callback was invoked (the key advanced) although no signature was produced: signing panicked afterwards" + where, [c.line], a[:300], "no callback when no signature can be produced")
+        else:
+            ctx.fail("signing panicked" + where, [c.line], a[:300], "ok or err")
+        return
+    f = fields(a)
+    calls = [] if f.get("cb") == "none" else f.get("cb", "").split(",")
+    if len(calls) > 1:
+        ctx.fail("callback invoked more than once" + where, [c.line], a[:300], "at most one invocation")
+    if a.startswith("ok"):
+        if cb != "accept" or len(calls) != 1 or unhx(calls[0]) != successor(k, cnt):
+            ctx.fail("signature released without exactly one accepted callback carrying the complete successor key" + where, [c.line], a[:300], "cb=" + hx(successor(k, cnt)))
+    else:
+        if cb == "accept":
+            ctx.fail("signing failed for a usable key and an accepting callback" + where, [c.line], a[:300], "ok")
+        elif len(calls) != 1:
+            ctx.fail("rejecting callback was not consulted exactly once" + where, [c.line], a[:300], "err cb=<one key>")
+
+
+def run_configs(ctx):
+    """the same protocol in constrained builds, with keys at the largest parameters each level permits (signature buffers sized by
+    build-time capacities are filled to the brim there)"""
+    from . import C14
+    rng = ctx.rng
+    for cfg in (C14.CONFIGS_QUICK if ctx.tier == "quick" else C14.CONFIGS_THOROUGH):
+        L = int(cfg["HBS_LMS_MAX_ALLOWED_HSS_LEVELS"])
+        hs = [int(x) for x in cfg["HBS_LMS_TREE_HEIGHTS"].split(", ")]
+        ws = [int(x) for x in cfg["HBS_LMS_WINTERNITZ_PARAMETERS"].split(", ")]
+        if not ctx.open(cfg):
+            continue
+        lists = []
+        full = [({1: 1, 2: 2, 4: 3, 8: 4}[ws[i]], max(t for t in (1, 5, 6) if LMS_H[t] <= min(hs[i], 10))) for i in range(L)]
+        lists.append(full)
+        for l in range(1, L):
+            lists.append(full[:l])
+        cases = []
+        for ps in lists:
+            for H in ("S32", "K24"):
+                seed = rng.bytes_(HASHES[H])
+                k = Key(H, ps, seed, sk_blob(H, ps, seed, 0), b"")
+                for cnt in sorted({0, k.lifetime - 1, rng.randrange(k.lifetime)}):
+                    for cb in ("accept", "reject"):
+                        for ax in (None, bytes(1500)):
+                            cases.append(Case(sign_line(H, k.blob(cnt), b"configured", cb, ax), "cfg/sign/%s/%s" % (cb, "aux" if ax else "noaux"), {"key": k, "c": cnt, "cb": cb}))
+        for c, a, b in ctx.both(cases, proj):
+            protocol_oracle(ctx, c, a, c.meta["key"], c.meta["c"], c.meta["cb"], " (build %s)" % json.dumps(cfg))
